@@ -22,7 +22,9 @@ MAX_PATHS = 20000
 META = dict(
     bounds=dict(
         quick="split: degree 0..3, <=2 interior knots (sampled patterns), 0-2 symbolic cuts and split(); polynomial and rational (p<=2); "
-              "join: 14 concrete pairs / split-rejoin cases of degree 0..3, symbolic control points",
+              "join: split-rejoin on ~11 concrete vectors of degree 0..3 (cuts inside every span: all control points symbolic; cuts at "
+              "every interior knot: the two control points next to the junction symbolic, the others fixed) and 4-8 independent pairs "
+              "(three control points next to the junction symbolic)",
         thorough="split: all patterns of degree <=3 with <=2 interior knots, up to 2 cuts; join: ~60 cases",
     ),
     assumptions=["exact real arithmetic", "knots and cut points pairwise equal or at least 1e-5 apart",
@@ -55,11 +57,14 @@ def configs(tier, seed):
     kfam = fam.pattern_family(range(0, 4), 2, seed=seed)
     step = 4 if tier == "quick" else 1
     for i, (p, pat) in enumerate(kfam):
-        if len(pat) < 3 or (i + seed) % step:
+        if (i + seed) % step:
             continue
         vals = fam.concrete_values(len(pat), seed, i)
-        cfgs.append(dict(name=f"rejoin p={p} mults={pat} vals={[str(v) for v in vals]}", kind="rejoin", p=p, mults=pat,
-                         vals=[str(v) for v in vals], dim=(i % 2) * 2))
+        cfgs.append(dict(name=f"rejoin p={p} mults={pat} vals={[str(v) for v in vals]} cuts inside spans", kind="rejoin", p=p,
+                         mults=pat, vals=[str(v) for v in vals], dim=(i % 2) * 2, at="span"))
+        for j in range(1, len(pat) - 1):
+            cfgs.append(dict(name=f"rejoin p={p} mults={pat} vals={[str(v) for v in vals]} cut at knot {j}", kind="rejoin", p=p,
+                             mults=pat, vals=[str(v) for v in vals], dim=0, at=j))
     pairs = [(0, [1, 1], 0, [1, 1]), (1, [2, 2], 1, [2, 2]), (1, [2, 1, 2], 1, [2, 2]), (2, [3, 3], 2, [3, 1, 3]),
              (1, [2, 2], 2, [3, 3]), (2, [3, 2, 3], 1, [2, 2]), (3, [4, 4], 3, [4, 4]), (0, [1, 1], 1, [2, 2])]
     if tier == "quick":
@@ -137,15 +142,38 @@ def _frac_points(env, prefix, n, dim):
     return make_points(env, prefix, n, dim)
 
 
+def _mixed_points(env, prefix, n, symbolic, salt):
+    """control points: the indices in `symbolic` are solver variables, the others fixed rationals"""
+    pts = []
+    for i in range(n):
+        if i in symbolic:
+            pts.append(env.real(f"{prefix}{i}"))
+        else:
+            pts.append(env.const(Fraction(((i * 7 + salt * 5) % 11) - 5, 1 + ((i + salt) % 4))))
+    return pts
+
+
 def _rejoin(env, cfg):
     from compmec.nurbs import Curve
     p, mults = cfg["p"], cfg["mults"]
     vals = [Fraction(v) for v in cfg["vals"]]
     kv = KV(vals, mults)
-    P = make_points(env, "P", kv.n, cfg["dim"])
+    cuts = []
+    if cfg["at"] == "span":
+        # cut strictly inside every span: nothing but the exact removals can happen, all points symbolic
+        P = make_points(env, "P", kv.n, cfg["dim"])
+        cuts = [(a + 2 * b) / 3 for a, b in zip(vals[:-1], vals[1:])]
+    else:
+        # cut at an existing knot: the library then tries one more (inexact) removal and the outcome depends on the
+        # control points; two of them (next to the junction) are symbolic, the others fixed
+        j = cfg["at"]
+        span = kv.span_of(j) - mults[j]  # last span index left of the knot
+        sym = {max(0, min(kv.n - 1, span)), max(0, min(kv.n - 1, span + 1))}
+        P = _mixed_points(env, "P", kv.n, sym, j)
+        cuts = [vals[j]]
     curve = Curve(list(kv.U), P)
     snap = kmode.snapshot(curve)
-    for cut in vals[1:-1]:
+    for cut in cuts:
         pieces = curve.split([cut])
         A, B = pieces
         sa, sb = kmode.snapshot(A), kmode.snapshot(B)
@@ -153,7 +181,8 @@ def _rejoin(env, cfg):
         kmode.unchanged(env, A, sa, "join left operand")
         kmode.unchanged(env, B, sb, "join right operand")
         kvJ = kmode.lib_kv(J)
-        m0, mj = mults[vals.index(cut)], list(J.knotvector).count(cut)
+        m0 = mults[vals.index(cut)] if cut in vals else 0
+        mj = list(J.knotvector).count(cut)
         env.holds(f"rejoin at {cut}: junction keeps at most the original multiplicity", mj <= m0 and J.degree == p)
         if mj >= m0:
             kmode.same_function(env, f"split at {cut} then join", kv, P, None, kvJ, list(J.ctrlpoints), None)
@@ -179,8 +208,12 @@ def _join(env, cfg):
     shift = va[-1] - vb0[0]
     vb = [x + shift for x in vb0]
     kva, kvb = KV(va, cfg["ma"]), KV(vb, cfg["mb"])
-    P = env.reals("P", kva.n)
-    Q = env.reals("Q", kvb.n)
+    if cfg.get("allsym"):
+        P = env.reals("P", kva.n)
+        Q = env.reals("Q", kvb.n)
+    else:
+        P = _mixed_points(env, "P", kva.n, {kva.n - 1}, k)
+        Q = _mixed_points(env, "Q", kvb.n, {0, 1} if kvb.n > 1 else {0}, k + 1)
     A, B = Curve(list(kva.U), P), Curve(list(kvb.U), Q)
     sa, sb = kmode.snapshot(A), kmode.snapshot(B)
     J = A | B
